@@ -880,6 +880,11 @@ pub fn main() {
                     );
                     return;
                 }
+                if e.contains("None of the refspec(s)") && refs_b == refs_before && refs_a == refs_before {
+                    // documented `Error::NoMapping`: the refspecs select nothing on the remote. git silently does nothing.
+                    c.label("gix-no-mapping-error(git-no-op)");
+                    return;
+                }
                 c.fail(format!(
                     "gitoxide fetch failed ({e}) where `git fetch` succeeded (ok={git_ok}, stderr {:?}); scenario: {}",
                     git_err.trim(),
@@ -934,7 +939,15 @@ pub fn main() {
         let effective = |set: BTreeSet<String>| -> BTreeSet<String> { set.into_iter().filter(|id| !roots.contains(id)).collect() };
         let sa = effective(shallow_of(&a));
         let sb = effective(shallow_of(&b));
-        let sig = "";
+        // Known class: with protocol v0/v1 the `deepen-relative` capability is always put on the first want line, so the
+        // server treats an absolute `deepen <n>` as relative to the client's current boundary. Primary symptom: the
+        // shallow boundary differs; where it does, differing fast-forward decisions (git judges them on the truncated
+        // history) are consequences and carry the same signature.
+        let sig = if s.protocol != 2 && matches!(s.shallow, ShallowOp::Depth(_)) && sa != sb && !git_fatal {
+            "v1-depth-treated-as-deepen-relative"
+        } else {
+            ""
+        };
         let scenario = format!("gitoxide: {gix_status}, negotiation rounds={rounds}; {}", describe(&s));
         // --- integrity of A
         if !settle(c, sig, fsck(&agit, "copy A after gitoxide fetch"), &scenario) {
@@ -1023,13 +1036,6 @@ pub fn main() {
             return;
         }
         // --- shallow boundary
-        // Known class: with protocol v0/v1 the `deepen-relative` capability is always put on the first want line, so
-        // the server treats an absolute `deepen <n>` as relative to the client's current boundary.
-        let sig = if s.protocol != 2 && matches!(s.shallow, ShallowOp::Depth(_)) {
-            "v1-depth-treated-as-deepen-relative"
-        } else {
-            ""
-        };
         ensure_sig!(
             c,
             sig,
